@@ -85,6 +85,8 @@ type Authority struct {
 	Rand   io.Reader
 	Now    time.Time
 
+	// Zone, when set, is the time zone the operator writes timestamps in.
+	Zone *time.Location
 	// Decorate enables the fault-injecting decorators around key manager, signer and CA.
 	Decorate bool
 	// Order decides the certificate upload order inside gcsca.Finalize (hook H1); nil = sorted.
@@ -131,6 +133,15 @@ func NewAuthority(r *core.Run, cfg Config, plan *seams.FaultPlan) *Authority {
 		os.MkdirAll(filepath.Join(d, "bucketroot"), 0o755)
 	}
 	return a
+}
+
+// stamp is the operator's --timestamp: the authority's clock reading, told in the operator's time
+// zone when one is set (the same instant).
+func (a *Authority) stamp() time.Time {
+	if a.Zone != nil {
+		return a.Now.In(a.Zone)
+	}
+	return a.Now
 }
 
 func (a *Authority) installHooks() {
@@ -357,7 +368,7 @@ func (a *Authority) Bootstrap(b BootArgs) (err error, crashed bool) {
 			args := append([]string{"bootstrap"}, b.Flags.args()...)
 			args = append(args, a.caFlags()...)
 			args = append(args, a.kmsFlags("bootstrap")...)
-			args = append(args, "--timestamp", a.Now.Format(time.RFC3339))
+			args = append(args, "--timestamp", a.stamp().Format(time.RFC3339))
 			if b.RootCN != "" {
 				args = append(args, "--root_key_cn", b.RootCN)
 			}
@@ -381,7 +392,7 @@ func (a *Authority) Bootstrap(b BootArgs) (err error, crashed bool) {
 		bc := &rotate.BootstrapContext{RootKeyCommonName: orDefault(b.RootCN, "GCE-cc-tcb-root"),
 			SigningKeyCommonName: orDefault(b.SignCN, "GCE-uefi-signer"),
 			RootKeySerial:        big.NewInt(orDefaultI(b.RootSerial, 1)), SigningKeySerial: big.NewInt(orDefaultI(b.SignSerial, 2)),
-			Now: a.Now}
+			Now: a.stamp()}
 		if b.SignSerialBig != nil {
 			bc.SigningKeySerial = new(big.Int).Set(b.SignSerialBig)
 		}
@@ -412,7 +423,7 @@ func (a *Authority) Rotate(ra RotArgs) (err error, crashed bool) {
 			args := append([]string{"rotate"}, ra.Flags.args()...)
 			args = append(args, a.caFlags()...)
 			args = append(args, a.kmsFlags("rotate")...)
-			args = append(args, "--timestamp", a.Now.Format(time.RFC3339))
+			args = append(args, "--timestamp", a.stamp().Format(time.RFC3339))
 			if ra.SignCN != "" {
 				args = append(args, "--signing_key_cn", ra.SignCN)
 			}
@@ -428,7 +439,7 @@ func (a *Authority) Rotate(ra RotArgs) (err error, crashed bool) {
 			return err
 		}
 		skc := &rotate.SigningKeyContext{SigningKeyCommonName: orDefault(ra.SignCN, "GCE-uefi-signer"),
-			SigningKeySerial: big.NewInt(ra.SerialOverride), Now: a.Now}
+			SigningKeySerial: big.NewInt(ra.SerialOverride), Now: a.stamp()}
 		if ra.SerialBig != nil {
 			skc.SigningKeySerial = new(big.Int).Set(ra.SerialBig)
 		}
